@@ -18,6 +18,9 @@ verus! {
 //@include prelude/opaque_payloads.rs
 //@include prelude/opaque_command.rs
 //@include prelude/std_specs.rs
+/// the reflexive conversion of core (`impl<T> From<T> for T`): the identity
+pub assume_specification<T>[ <T as From<T>>::from ](t: T) -> (r: T)
+    ensures r == t;
 //@include prelude/received_pdu.rs
 //@include prelude/wire_traits_buf.rs
 
@@ -384,7 +387,7 @@ impl<'a> Coe<'a> {
 @closure 0 "|_e: &Error|"
 @*/
 
-/*@fn file=src/mailbox/coe/mod.rs impl="impl<'maindevice, S> Coe<'maindevice, S>" name=mailbox_write_read subst="&'maindevice self=>&self@@ReceivedPdu<'maindevice>=>ReceivedPdu@@R: CoeServiceRequest + Debug=>R: CoeServiceRequest" props=C15,C16
+/*@fn file=src/mailbox/coe/mod.rs impl="impl<'maindevice, S> Coe<'maindevice, S>" name=mailbox_write_read subst="&'maindevice self=>&self@@ReceivedPdu<'maindevice>=>ReceivedPdu@@R: CoeServiceRequest + Debug=>R: CoeServiceRequest" props=C15,C16 try_all=1
     requires self.wf()
     ensures
         (r is Err && exchange_err(r->Err_0)) || exists|reply: Seq<u8>|
@@ -395,10 +398,6 @@ impl<'a> Coe<'a> {
 @hoist HeadersRaw
 @hoist EmergencyData
 @closure 0 "|err: &Error|"
-@try "HeadersRaw::unpack_from_slice(&response)?"
-@try "EmergencyData::unpack_from_slice(&response)?"
-@try "CoeAbortCode::unpack_from_slice(&response)?"
-@try "R::unpack_from_slice(&response)?"
 @after "let mut response = self.wait_for_mailbox_response(&read_mailbox).await?;"
     let ghost reply0 = response.data();
     proof {
